@@ -44,8 +44,11 @@ func runC09(c *core.Ctx, r *core.Result) {
 		depth = 8
 	}
 	for _, p := range periods {
-		c09Explore(c, r, p, depth)
+		c09Explore(c, r, p, depth, drive.StPIP10)
 	}
+	// the same search without rolling averages (2.0.2 era): everything else a restart could disturb (holding table,
+	// grading bookkeeping, start-up migrations), with the known window finding out of the picture
+	c09Explore(c, r, 4, depth-1, drive.StV202)
 }
 
 func c09Block(b *drive.Builder, typ byte) {
@@ -63,10 +66,13 @@ func c09Block(b *drive.Builder, typ byte) {
 	b.Add(s)
 }
 
-func c09Explore(c *core.Ctx, r *core.Result, period uint64, depth int) {
-	era := drive.EraStage(drive.StPIP10)
+func c09Explore(c *core.Ctx, r *core.Result, period uint64, depth int, stage int) {
+	era := drive.EraStage(stage)
 	era.AvgPeriod = period
 	era.Name = fmt.Sprintf("pip10-avg%d", period)
+	if stage != drive.StPIP10 {
+		era.Name = "v202-no-averaging"
+	}
 	era.Apply()
 	root := drive.Scratch("c09")
 	defer os.RemoveAll(root)
@@ -203,6 +209,9 @@ func c09Explore(c *core.Ctx, r *core.Result, period uint64, depth int) {
 			os.RemoveAll(st.dir)
 		}
 		r.Traces += len(byPrefix)
+		if nstate >= 5 && len(byPrefix) == 0 {
+			panic(fmt.Sprintf("harness: C09 %s: none of %d blocks could be applied", era.Name, nstate))
+		}
 	}
 	var ks []string
 	_ = ks
@@ -245,7 +254,15 @@ func c09Apply(era drive.Era, b0 *drive.Builder, st *c09State, t byte, restart bo
 		c09Block(b, st.prefix[i])
 	}
 	c09Block(b, t)
-	d, err := drive.Open(dir+"/db", fake.NewNode(b.Chain), nil, false)
+	// a restart runs the real start-up (node.NewPegnetd); "no restart" is a clone of the running node:
+	// no start-up code at all, the cache carried over
+	var d *drive.Daemon
+	var err error
+	if restart {
+		d, err = drive.Open(dir+"/db", fake.NewNode(b.Chain), nil, false)
+	} else {
+		d, err = drive.Continue(dir+"/db", fake.NewNode(b.Chain), nil, false)
+	}
 	if err != nil {
 		panic("harness: " + err.Error())
 	}
